@@ -234,8 +234,10 @@ void drv_alias_qf(int tier, unsigned long seed, const char *extra) {
       for (i = 0; i < np; i++) if (part[i] + 1 > nblocks) nblocks = part[i] + 1;
       for (a1 = 0; a1 < np && ok; a1++) for (a2 = a1 + 1; a2 < np; a2++)
         if (part[a1] == part[a2] && is_out(f->kinds[pos[a1]]) && is_out(f->kinds[pos[a2]]) && !has(f->name, "swap")) ok = 0;
-      if (ok) for (vclass = 0; vclass < 2; vclass++) for (rep = 0; rep < (tier ? 4 : 2); rep++) {
-        arg_t a[8]; int var[8], b, sig;
+      /* vclass 2 (floats): operands that hold MORE limbs than their precision, the documented mpf_set_prec_raw use (a variable set at a high
+         precision, lowered, then used as source and destination, restored before mpf_clear) */
+      if (ok) for (vclass = 0; vclass < (isF ? 3 : 2); vclass++) for (rep = 0; rep < (vclass == 2 ? (tier ? 8 : 4) : (tier ? 4 : 2)); rep++) {
+        arg_t a[8]; int var[8], b, sig, lowered[4] = {0, 0, 0, 0};
         x++; if (!MINE(sh, x)) continue;
         rec_reset("alias_qf", x, seed);
         for (i = 0; i < 8; i++) callf("mpz_init", i);
@@ -243,7 +245,14 @@ void drv_alias_qf(int tier, unsigned long seed, const char *extra) {
         if (isF) callf("mpq_init", 0); else callf("mpf_init2", 0, (uint64_t)128);
         memset(a, 0, sizeof a); for (i = 0; i < 8; i++) var[i] = 0;
         for (i = 0; i < np; i++) var[pos[i]] = part[i];
-        for (b = 0; b < nblocks; b++) { if (isF) setf_rand(b, vclass); else setq_rand(b, vclass); }
+        for (b = 0; b < nblocks; b++) {
+          if (isF && vclass == 2 && (b == 0 || rnd_below(3) == 0)) {      /* 20 or 21 full limbs at 1280 bits, then lowered to 64..640 bits */
+            mp_limb_t buf[24]; int n = 20 + (int)rnd_below(2), k; char *h;
+            callf("mpf_set_prec", b, (uint64_t)1280);
+            rnd_limbs(buf, n, (int)rnd_below(NKINDS)); for (k = 0; k < n; k++) if (!buf[k]) buf[k] = rnd64() | 1;
+            h = hex_of_limbs(buf, n, (int)rnd_below(2)); callf("drv_setf", b, h, (int64_t)((long)rnd_below(7) - 3)); free(h);
+            callf("mpf_set_prec_raw", b, (uint64_t)precs[rnd_below(4)]); lowered[b] = 1;
+          } else if (isF) setf_rand(b, vclass == 2 ? (int)rnd_below(2) : vclass); else setq_rand(b, vclass); }
         for (i = 0; i < f->nargs; i++) { a[i].kind = f->kinds[i];
           switch (f->kinds[i]) { case K_U: a[i].u = rnd_below(3) ? UIS[rnd_below(12)] : rnd64() >> rnd_below(64); if (has(f->name, "div_ui") && a[i].u == 0) a[i].u = 3; if (has(f->name, "cmp_ui") && !isF && i == 2 && a[i].u == 0) a[i].u = 1;
               if (has(f->name, "set_ui") && !isF && i == 2 && a[i].u == 0) a[i].u = 1; if (has(f->name, "set_si") && !isF && i == 2 && a[i].u == 0) a[i].u = 1; if (has(f->name, "cmp_si") && !isF && i == 2 && a[i].u == 0) a[i].u = 1; break;
@@ -255,6 +264,7 @@ void drv_alias_qf(int tier, unsigned long seed, const char *extra) {
         sig = 0;
         { ret_t r; for (i = 0; i < f->nargs; i++) if (is_obj_kind(f->kinds[i])) a[i].idx = var[i]; sig = do_call(f, a, &r); if (f->rkind == RT_STR && r.str) rec_free_str(r.str); }
         if (sig) continue;                                   /* execution tainted by the signal: abandoned (next reset) */
+        for (b = 0; b < 4; b++) if (lowered[b]) callf("mpf_set_prec_raw", b, (uint64_t)1280);      /* "must be restored before mpf_clear" */
         for (i = 0; i < 8; i++) callf("mpz_clear", i);
         for (i = 0; i < 4; i++) callf(isF ? "mpf_clear" : "mpq_clear", i);
         callf(isF ? "mpq_clear" : "mpf_clear", 0);
